@@ -3,9 +3,54 @@
 use crate::scen::*;
 use crate::util::*;
 
+/// C17: one open hostname search (caller and responder spell the name in any letter case), one or
+/// two addresses answered with short TTLs, then silence until past their expiry: AddressesFound
+/// when they arrive, the refresh queries, AddressesRemoved when they run out.
+pub fn gen_address_life(r: &mut Rng) -> String {
+    use mdns_sd::verif::parser::{RDataView, RecDesc};
+    let mut cmds: Vec<String> = vec![format!("daemon {}", ifaces_of(0, false))];
+    cmds.push("ipint 0 100000".to_string());
+    let mut now = 1_000_000u64;
+    cmds.push(format!("run {}", now));
+    let base = *r.pick(&["srv-a.local.", "Host-B.local.", "MiXed-Case.local."]);
+    let spell = |r: &mut Rng| match r.below(3) {
+        0 => base.to_string(),
+        1 => base.to_ascii_lowercase(),
+        _ => base.to_ascii_uppercase().replace(".LOCAL.", ".local."),
+    };
+    cmds.push(format!("resolve 0 1 {} none", hx(&spell(r))));
+    now += *r.pick(&[0u64, 300, 1200]);
+    cmds.push(format!("run {}", now));
+    let owner = spell(r);
+    let mut max_ttl = 0u32;
+    for k in 0..r.range(1, 2) {
+        let ttl = *r.pick(&[2u32, 3, 5, 10]);
+        max_ttl = max_ttl.max(ttl);
+        let rec = RecDesc {
+            name: owner.clone(),
+            ty: 1,
+            class: if r.chance(1, 2) { 0x8001 } else { 1 },
+            ttl,
+            rdata: RDataView::Addr { ip: format!("192.168.1.{}", 50 + k).parse().unwrap(), if_name: "x".into(), if_index: 0 },
+        };
+        cmds.push(format!("inject 0 2 1 192.168.1.50 5353 {}", response(&[rec], &[])));
+        if r.chance(1, 2) {
+            now += *r.pick(&[100u64, 700]);
+            cmds.push(format!("run {}", now));
+        }
+    }
+    now += max_ttl as u64 * 1000 + *r.pick(&[2000u64, 4000]);
+    cmds.push(format!("run {}", now));
+    format!("sim C17 {}", cmds.join(" ; "))
+}
+
 pub fn generate_c17(r: &mut Rng, tier: &str, emit: &mut dyn FnMut(String)) {
     let n = if tier == "thorough" { 2000 } else { 200 };
     for i in 0..n {
+        if i % 8 == 5 {
+            emit(gen_address_life(r));
+            continue;
+        }
         if i % 4 == 3 {
             let mut k = Knobs::base("C17");
             k.responders = 1 + r.below(2);
@@ -59,6 +104,17 @@ pub fn gen_leftovers(r: &mut Rng) -> String {
         max_ttl = max_ttl.max(t.ptr).max(t.srv).max(t.txt).max(t.addr).max(nt);
         let recs = recs_of(&inst, &t, true);
         let full = recs[1].name.clone();
+        if r.chance(1, 3) {
+            // subtype PTRs of a type nobody browses, for several distinct instances
+            for n in 0..r.range(1, 4) {
+                let mut f = gen_inst(r, 7);
+                f.ty = "_other._tcp.local.".to_string();
+                f.label = format!("foreign{}", n);
+                let mut fr = recs_of(&f, &t, true);
+                fr[0].name = format!("_printer._sub.{}", f.ty);
+                cmds.push(format!("inject 0 2 1 192.168.1.50 5353 {}", response(&fr[..1], &fr[1..])));
+            }
+        }
         let pkt = match r.below(7) {
             // the Apple way: address answer plus NSEC for the host, no PTR
             0 | 1 => {
@@ -81,6 +137,8 @@ pub fn gen_leftovers(r: &mut Rng) -> String {
         now += *r.pick(&[0u64, 500, 1500, 4000]);
         cmds.push(format!("run {}", now));
     }
+    cmds.push("metrics 0 8".to_string());
+    cmds.push(format!("run {}", now));
     match kind {
         0 => cmds.push(format!("stopresolve 0 {}", hx(&inst.host))),
         1 => cmds.push(format!("stopbrowse 0 {}", hx(&inst.ty))),
